@@ -1,6 +1,10 @@
 package props
 
 import (
+	"fmt"
+	"os"
+	"path/filepath"
+
 	jd "github.com/josephburnett/jd/v2"
 
 	"verifharness/gen"
@@ -30,6 +34,19 @@ func c12Case(c *mon.Ctx, tText, pText string) {
 	if err != nil {
 		c.Violation("ReadMergeString rejected a JSON Merge Patch document: "+err.Error(), extra)
 		return
+	}
+	if c.Index%4 == 0 && c.WorkDir != "" {
+		// the file entry point must read exactly what the string entry point reads
+		fn := filepath.Join(c.WorkDir, "merge.json")
+		if werr := os.WriteFile(fn, []byte(pText), 0o644); werr == nil {
+			df, ferr := jd.ReadMergeFile(fn)
+			c.Feature("file_reader_compared")
+			if ferr != nil || hunksEqual(Hunks(d), Hunks(df)) != "" {
+				extra["read_from_file_as"] = ref.HunksString(Hunks(df))
+				c.Violation("ReadMergeFile and ReadMergeString read the same document differently", extra)
+				return
+			}
+		}
 	}
 	extra["read_as"] = ref.HunksString(Hunks(d))
 	var P jd.JsonNode
@@ -69,7 +86,7 @@ func init() {
 		ID: "C12",
 		Rule: "cases are (target, merge patch) pairs: the complete product of an exhaustive family of small documents (objects of <=2 keys over {1, null, {}, {\"x\":1}, {\"x\":null}, [1], \"s\", []} to depth 2-3, scalars, arrays and null at the root) and random deeper pairs where the patch is a mutation of the target with nulls sprinkled; " +
 			"ReadMergeString + Patch is compared with the RFC 7386 pseudocode; non-trivial = every case; distinct = distinct (target, patch)",
-		Floors: map[string]int{"agree": 20000, "patch_has_null": 5000, "patch_is_not_object": 1000, "patch_has_empty_object": 1000},
+		Floors: map[string]int{"agree": 20000, "patch_has_null": 5000, "patch_is_not_object": 1000, "patch_has_empty_object": 1000, "file_reader_compared": 3000, "cli_merge_runs": 500},
 		Assumptions: []string{"ref.MergePatch is the RFC 7386 pseudocode verbatim", "the empty (void) document as target is included; as patch text it is not a JSON document and is excluded"},
 	}
 	small := smallMergeDocs(true)
@@ -119,6 +136,72 @@ func init() {
 			c12Case(c, ref.ToJSON(t), ref.ToJSON(patch))
 		},
 	})
+	// the same through the real binaries: jd -p -f merge patch target, JSON and YAML output
+	p.Strata = append(p.Strata, mon.Stratum{
+		Name: "cli-merge-patch",
+		CLI:  true,
+		N:    qt(300, 6000),
+		Run: func(c *mon.Ctx, i int) {
+			prof := gen.PObjects
+			t := gen.Doc(c.R, prof)
+			var patch any
+			switch i % 4 {
+			case 0:
+				patch = gen.Scalar(c.R, prof) // replaces the root
+			case 1:
+				patch = []any{gen.Scalar(c.R, prof)}
+			default:
+				patch = sprinkleNulls(c.R, gen.Mutate(c.R, prof, t), true)
+			}
+			if patch == nil {
+				patch = "x"
+			}
+			if i%5 == 0 {
+				t = []any{1.0, 2.0} // a non-object target: an object patch replaces it
+			}
+			tText, pText := ref.ToJSON(t), ref.ToJSON(patch)
+			c.Input("target", tText)
+			c.Input("merge_patch", pText)
+			want := ref.MergePatch(t, patch)
+			if ref.ContainsEmptyObject(patch) {
+				c.Skip("empty object in the patch (F15 is judged in the library strata)")
+				return
+			}
+			c.Nontrivial(joinKey("cli", tText, pText))
+			for _, bin := range []Binary{BinV2, BinTop} {
+				for _, yaml := range []bool{false, true} {
+					args := []string{"-p", "-f", "merge"}
+					tf := tText
+					if yaml {
+						args = append(args, "-yaml")
+						tf = ref.YamlEmit(t, ref.YBlockDouble)
+					}
+					res := RunCLI(c, bin, append(args, "p.json", "t.in"), "", map[string]string{"p.json": pText, "t.in": tf})
+					c.Feature("cli_merge_runs")
+					extra := map[string]any{"binary": bin.Name, "argv": fmt.Sprint(args), "stdout": res.Stdout, "stderr": res.Stderr, "rfc_result": ref.ToJSON(want)}
+					if res.Status != 0 {
+						c.Violation(fmt.Sprintf("jd -p -f merge exited %d on a valid merge patch", res.Status), extra)
+						return
+					}
+					var got any
+					var err error
+					if yaml {
+						var Y jd.JsonNode
+						if Y, err = jd.ReadYamlString(res.Stdout); err == nil {
+							got = Plain(Y)
+						}
+					} else {
+						got, err = ref.FromJSON(res.Stdout)
+					}
+					if err != nil || !ref.Eq(got, want, ref.List) {
+						c.Violation("jd -p -f merge prints a document different from RFC 7386 MergePatch(target, patch)", extra)
+						return
+					}
+				}
+			}
+		},
+	})
+	p.NeedsCLI = true
 	mon.Register(p)
 }
 
